@@ -4,8 +4,9 @@ import itertools
 from hypothesis import strategies as st
 
 from ..hexcommon import histories
-from ..hexrun import run_history
-from ..util import Info
+from ..deepchain import build_chain
+from ..hexrun import check_lookup, run_history
+from ..util import Info, impl
 
 ID = "C01"
 LEVEL = "exploration"
@@ -57,10 +58,31 @@ def exhaustive(tier):
                     yield {"prune": prune, "ops": list(seq)}
 
     yield (f"all histories of length<={n} over the 6-key universe x (short,long,delete) x prune", gen())
+    yield ("deep chain of nested prefix keys (as deep as set() can build), with and without side branches",
+           iter([{"deep": 0}, {"deep": 1}]))
+
+
+def _run_deep(case, info):
+    t, model, keys = build_chain(fan=bool(case["deep"]))
+    info.count("deep_chain_levels", len(keys))
+    probes = list(model) + [k + b"\x00" for k in keys[::7]] + [k[:-1] + bytes([k[-1] ^ 1]) for k in keys[::5]]
+    for k in probes:
+        check_lookup(t, model, k, True)
+    # deleting from the deepest key upwards keeps every remaining key readable
+    for k in reversed(keys[len(keys) // 2:]):
+        impl("delete-never-raises", t.delete, k)
+        del model[k]
+    for k in list(model)[::3] + keys[len(keys) // 2:][::9]:
+        check_lookup(t, model, k, False)
+    info.label("deep-chain")
+    info.nontrivial = len(keys) >= 100
+    return info
 
 
 def run_case(case):
     info = Info()
+    if "deep" in case:
+        return _run_deep(case, info)
     facts = run_history(case, {"map"}, info)
     info.nontrivial = (
         (facts["deletes"] + facts["overwrites"]) > 0
